@@ -78,7 +78,9 @@ def weights(r, E, style):
     if style == "small": return [(u, v, r.randint(1, 3)) for (u, v) in E], 0
     if style == "two": return [(u, v, r.randint(1, 2)) for (u, v) in E], 0
     if style == "wide": return [(u, v, r.randint(1, 1000)) for (u, v) in E], 0
-    if style == "dyadic": return [(u, v, r.randint(1, 64)) for (u, v) in E], r.choice([1, 3, 5])
+    # dyadic weights w / 2^scale over the whole exponent range in which sums stay exact: tiny (2^-60: every weight and
+    # every difference is far below machine epsilon), ordinary, and huge (w * 2^20)
+    if style == "dyadic": return [(u, v, r.randint(1, 64)) for (u, v) in E], r.choice([1, 3, 5, 40, 55, 60, -20])
     raise ValueError(style)
 
 def shuffle_graph(r, n, E):
